@@ -90,6 +90,17 @@ Name(nm, i) ==
       [] nm = "prefix"     -> IF i = 1 THEN "g" ELSE "g" \o Letter[i - 1]            \* g ga gb ..
       [] nm = "prefixlast" -> IF i = N THEN "g" ELSE "g" \o Letter[i]                \* ga gb .. g
       [] nm = "dotted"     -> IF i = 1 THEN "gene" ELSE "gene." \o Digit[i - 1]      \* gene gene.1 ..
+      \* unusual but legal identifiers: one that, read as a glob pattern, matches the others
+      [] nm = "globlast"   -> IF i = N THEN "gene[1234]" ELSE "gene" \o Digit[i]     \* gene1 gene2 .. gene[1234]
+      [] nm = "globfirst"  -> IF i = 1 THEN "gene[1234]" ELSE "gene" \o Digit[i]     \* gene[1234] gene2 ..
+      [] nm = "wildcards"  -> <<"ab", "a*b", "a?b", "a[!x]b">>[i]
+      \* blanks, quotes (also doubled), colons, commas, '#', '|', parentheses
+      [] nm = "punct"      -> <<"a b  c", "it's \"q\"\"d\"", "x:1,2#3|4", "(p){q}=r;s&t">>[i]
+      \* leading digit, only digits, very long with many dots, non-ASCII (\uXXXX is decoded by the harness)
+      [] nm = "digits"     -> <<"9lives", "007", "1e5", "0x1F">>[i]
+      [] nm = "long"       -> <<"v.1.2.3.4.5.6.7.8.9.10.11.12.13.14.15.16.17.18.19.20.a.very.long.identifier.with.many.dots.in.it.x",
+                                "v.1.2.3.4.5.6.7.8.9.10.11.12.13.14.15.16.17.18.19.20.a.very.long.identifier.with.many.dots.in.it.y",
+                                "\\u00fcn\\u00ef\\u00e7\\u00f8d\\u00e9", "\\u65e5\\u672c.1">>[i]
 (* identifier of a is a proper suffix of the identifier of b *)
 ProperSuffix(nm, a, b) == a # b /\ ((nm = "suffix" /\ a = 1) \/ (nm = "suffixlast" /\ a = N))
 
